@@ -1,6 +1,6 @@
 import G3D.Proofs.PolyPoly
 import G3D.Props.C04
-import G3D.Proofs.BodySoundSets
+import G3D.Proofs.BodySoundInter
 import G3D.Proofs.K2
 import G3D.Proofs.K4a
 import G3D.Proofs.K4f
